@@ -53,6 +53,17 @@ def observe(sc, add, build, make_point, oracle_outcome, oracle_partial, point, x
         add(f"after evaluating a and b at different points: (a == b) is {want_eq}",
             lambda: 1.0 if ((a == b) is want_eq) else 0.0, ("value", 1.0))
         return
+    if kind == "number_line":
+        import smoothmath as sm
+        import smoothmath.expression as ex
+        name = sc["name"]
+        add(f"Variable({name!r}).at(3.0) == 3.0 (a bare number for a one-variable expression)",
+            lambda: ex.Variable(name).at(3.0), ("value", 3.0))
+        add(f"Derivative(Variable({name!r})).at(3.0) == 1",
+            lambda: sm.Derivative(ex.Variable(name)).at(3.0), ("value", 1.0))
+        add(f"Point(**{{{name!r}: 2.0}}).coordinate({name!r}) == 2.0",
+            lambda: sm.Point(**{name: 2.0}).coordinate(name), ("value", 2.0))
+        return
     if kind == "value_repr":
         a = decode(sc["a"], build, make_point)
         for fn in (repr, str):
